@@ -15,6 +15,10 @@ type Document struct {
 	file    *fs.File
 	scanner *scanner
 
+	// lexErr is the error which ended the current pass: the scanner can't be
+	// asked for more lexemes after it, until the document is rewound.
+	lexErr error
+
 	lenOnce   sync.ErrOnceWithValue[uint]
 	checkOnce sync.ErrOnce
 
@@ -119,6 +123,10 @@ func (d *Document) check() error {
 }
 
 func (d *Document) nextLexeme() (lex lexeme.LexEvent, err error) {
+	if d.lexErr != nil {
+		return lexeme.LexEvent{}, d.lexErr
+	}
+
 	defer func() {
 		r := recover()
 		if r == nil {
@@ -130,6 +138,7 @@ func (d *Document) nextLexeme() (lex lexeme.LexEvent, err error) {
 			panic(r)
 		}
 		err = rErr
+		d.lexErr = rErr
 	}()
 
 	lex, ok := d.scanner.Next()
@@ -150,6 +159,7 @@ func (d *Document) Rewind() {
 
 // rewind rewinds document to the beginning.
 func (d *Document) rewind() {
+	d.lexErr = nil
 	d.scanner = newScanner(d.file)
 	d.scanner.allowTrailingNonSpaceCharacters = d.allowTrailingNonSpaceCharacters
 }
